@@ -13,14 +13,17 @@ CONSTANTS MaxSteps
 VARIABLES chain, pos, st, ran
 vars == <<chain, pos, st, ran>>
 
-StepKinds == {"inc", "tonil", "bad", "div0", "name", "add", "lit2", "litbad", "errobj", "getv"}
+StepKinds == {"inc", "tonil", "bad", "div0", "name", "add", "add2", "adddef", "lit2", "litbad", "errobj", "getv", "wrapv", "wrapbad"}
+(* steps whose successful result is itself an Either (a nested try returned, not consumed): the outer chain holds that object as its value *)
+WrapKinds == {"wrapv", "wrapbad"}
 R(n) == [t |-> "R", n |-> n]
 NilV == [t |-> "nil"]
 Val(v) == [ok |-> TRUE, v |-> v, kind |-> "", msg |-> ""]
 Err(k, m) == [ok |-> FALSE, v |-> NilV, kind |-> k, msg |-> m]
 Marker(s) == CASE s = "inc" -> 1 [] s = "tonil" -> 2 [] s = "bad" -> 3 [] s = "div0" -> 4 [] s = "name" -> 5 [] s = "add" -> 6
                [] s = "lit2" -> 7 [] s = "litbad" -> 8 [] s = "errobj" -> 9 [] s = "getv" -> 0
-IsProp(s) == s \in {"inc", "tonil", "bad", "div0", "name", "add", "getv"}
+               [] s = "add2" -> 6 [] s = "adddef" -> 6 [] s = "wrapv" -> 10 [] s = "wrapbad" -> 11
+IsProp(s) == s \in {"inc", "tonil", "bad", "div0", "name", "add", "add2", "adddef", "getv", "wrapv", "wrapbad"}
 
 (* what calling step s on value v does (the plain call) *)
 Call(s, v) ==
@@ -31,6 +34,10 @@ Call(s, v) ==
        [] s = "div0"   -> Err("ZeroDivisionErr", "cannot be divided by 0")
        [] s = "name"   -> Err("NameErr", "name `undefinedname` is not defined")
        [] s = "add"    -> Val(R(v.n + 3 + 1))            \* add(3, k: 1): positional and keyword argument both arrive
+       [] s = "add2"   -> Val(R(v.n + 3 + 2))            \* add(3, k: 2): every call gets the keyword value written at that call
+       [] s = "adddef" -> Val(R(v.n + 3 + 0))            \* add(3): the keyword parameter's default
+       [] s = "wrapv"  -> Val([t |-> "E", ok |-> TRUE, n |-> v.n])     \* self.try: an Either holding the receiver
+       [] s = "wrapbad" -> Val([t |-> "E", ok |-> FALSE, n |-> v.n])   \* self.try.bad: an Either holding an error - still a successful step
        [] s = "lit2"   -> Val(R(v.n * 2))
        [] s = "litbad" -> Err("Err", "lit")
        [] s = "errobj" -> Val([t |-> "errw", kind |-> "Err", msg |-> "bad"])   \* a step that *returns* a caught error succeeded
@@ -41,7 +48,7 @@ Call(s, v) ==
        [] s = "litbad" -> Err("Err", "lit")
        [] s = "errobj" -> Val([t |-> "errw", kind |-> "Err", msg |-> "bad"])
 
-Init == /\ chain \in UNION {[1..n -> StepKinds] : n \in 0..MaxSteps}
+Init == /\ chain \in {c \in UNION {[1..n -> StepKinds] : n \in 0..MaxSteps} : \A k \in 1..(Len(c) - 1) : c[k] \notin WrapKinds}   \* a wrapping step is the last one
         /\ pos = 0 /\ st = Val(R(1)) /\ ran = <<>>
 Step == /\ pos < Len(chain)
         /\ pos' = pos + 1
